@@ -54,6 +54,7 @@ def rule_ignored_whole_line(ctx):
     r = ctx.rule("ignored-is-whole-line", "parse_ignored appends every character up to (not including) CR/LF to the chunk, never discards one, and "
                  "every `return true` after that loop types the chunk CT_IGNORED")
     f = db.fn("parse_ignored", file=TOK)
+    r.names(f, "ctx", "pc")
     par = f.parents()
     gets = [n for n in f.all_nodes() if n["k"] == "call" and n.get("c") == "TokenContext::get"]
     r.require(gets, "parse_ignored has no get()")
@@ -104,6 +105,7 @@ def rule_raw_emit(ctx):
     r = ctx.rule("raw-emit", "output_text writes CT_IGNORED/CT_JUNK chunks with add_text(pc->GetStr(), true) only; add_text's is_ignored edge "
                  "calls write_char directly (no column, tab or blank logic)")
     o = db.fn("output_text", file=OUT)
+    r.names(o, "pc")
     raw = [n for n in o.all_nodes() if n["k"] == "call" and n.get("c") == "add_text" and len(n.get("a", ())) >= 2 and ("pc->Is(CT_JUNK) || pc->Is(CT_IGNORED)", True) in _conds(o, n)]
     r.require(len(raw) >= 1, "output_text: no add_text call under the CT_JUNK/CT_IGNORED test")
     n = raw[0]
